@@ -216,19 +216,17 @@ Lemma in_b_local flv slv reg ns ls at_ es l en o :
   In o (snd (b_stat flv slv reg (SLocal ns ls at_ es l) en)) ->
   (exists i e o0, nth_error es i = Some e /\ In o0 (b_exp flv slv reg e en) /\ retag o0 o /\
                   (s_cls o = [] -> outer_use en o0 = true -> name_in (s_name o0) ns = true ->
-                                   prot ns i e (s_name o0) = true /\ name_in (s_name o0) (firstn i ns) = false)) \/
+                                   prot ns i e (s_name o0) = true)) \/
   (exists nl b, In (nl, b) (combine (combine ns ls) (local_empties ns es)) /\ o = decl_occ en flv slv reg b nl).
 Proof.
   cbn [b_stat snd]. intros H. apply in_app_or in H. destruct H as [H|H].
   - left. apply in_concat_index_map in H. destruct H as (k & eo & Hk & Hy).
     apply nth_error_map_some in Hk. destruct Hk as (e & Hk & E). subst eo. cbn [fst snd plus] in Hy.
-    unfold tag_local_init in Hy. apply in_tag_if in Hy. destruct Hy as (o1 & H1 & R1 & C1).
-    apply in_tag_if in H1. destruct H1 as (o0 & H0 & R0 & C0).
-    exists k, e, o0. split; [exact Hk|]. split; [exact H0|]. split; [eapply retag_trans; eauto|].
-    intros Hc Hou Hnm. pose proof (C1 Hc) as C1'. destruct R1 as (_ & _ & _ & _ & _ & _ & E1). pose proof (E1 Hc) as E. subst o1.
+    unfold tag_local_init in Hy. apply in_tag_if in Hy. destruct Hy as (o0 & H0 & R0 & C0).
+    exists k, e, o0. split; [exact Hk|]. split; [exact H0|]. split; [exact R0|].
+    intros Hc Hou Hnm.
     pose proof (C0 Hc) as C0'. destruct R0 as (_ & _ & _ & _ & _ & _ & E0). pose proof (E0 Hc) as E. subst o0.
-    rewrite Hou, Hnm in C0'. cbn [andb] in C0'. rewrite Hou in C1'. cbn [andb] in C1'.
-    split; [|exact C1']. apply negb_false_iff in C0'. exact C0'.
+    rewrite Hou, Hnm in C0'. cbn [andb] in C0'. apply negb_false_iff in C0'. exact C0'.
   - right. apply in_map_iff in H. destruct H as ([nl b] & E & Hin). cbn [fst snd] in E. eauto.
 Qed.
 
